@@ -33,6 +33,15 @@ def run(ck: Check):
             if len(tc[1]) >= 3:
                 ex.dfs(strategy, {"limit": 1000000}, tc, stream="far-deadline", max_runs=25 if quick else 200,
                        clock=[1700000000] * 50)
+    # bytes that are not UTF-8 (Latin-1 text, one half of a multi-byte character per atom): no effect on the search
+    NONUTF = [b"caf\xe9\n", b"(\xff\n", b")\n", b"\xc3\n", b"\xa9{\n", b"}\n", b"x\n"]
+    for tc in small_layouts(3 if quick else 4, alphabet=NONUTF[: (5 if quick else 7)], with_nonred=False):
+        if len(tc[1]) >= 3 and any(p[0] > 127 or p[-2] > 127 for p in tc[1] if len(p) > 1):
+            for st_ in ("minimize-around", "minimize-balanced"):
+                ex.dfs(st_, {}, tc, stream="non-utf8", max_runs=12 if quick else 100)
+    for data in (b"\xe9(K)", "é(K)x".encode(), b"\xff" * 30 + b"(\n" + b"k\n)\n"):
+        for st_ in ("minimize-around", "minimize-balanced"):
+            ex.dfs(st_, {}, None, file0=data, atom="char", load=True, stream="non-utf8-char", max_runs=40 if quick else 400)
     # atoms that close one kind of bracket and open another (per-kind balances cancel numerically)
     MIX = [b"x\n", b")[\n", b"](\n", b"){\n", b"}(\n", b"(\n", b"]\n"]
     for tc in small_layouts(3 if quick else 4, alphabet=MIX[: (5 if quick else 7)], with_nonred=False):
